@@ -11,9 +11,9 @@ from .. import core, facts, gen, servesuite
 
 INJECT = b"x\r\n+INJECTED"
 FILL = [b"k", b"1", b"a", b"0", b"nx", b"limit", b"count", b"maxlen", b"*", b"-", b"+"]
-SEEDS = [[b"SET", b"ks", b"v"], [b"RPUSH", b"kl", b"a", b"b"], [b"SADD", b"kt", b"a"], [b"HSET", b"kh", b"f", b"1"], [b"ZADD", b"kz", b"1", b"a"],
-         [b"XADD", b"kx", b"1-1", b"f", b"v"]]
-KEYS = [b"k", b"ks", b"kl", b"kt", b"kh", b"kz", b"kx"]
+# no ZADD / float commands: the serve engine does not ship ParseFloat bits to the model
+SEEDS = [[b"SET", b"ks", b"v"], [b"RPUSH", b"kl", b"a", b"b"], [b"SADD", b"kt", b"a"], [b"HSET", b"kh", b"f", b"1"], [b"XADD", b"kx", b"1-1", b"f", b"v"]]
+KEYS = [b"k", b"ks", b"kl", b"kt", b"kh", b"kx"]
 
 
 def directed(fx, broken):
